@@ -83,6 +83,49 @@ class BranchTrip(object):
         args = self.call(o, 'args2str')
         return name, list(args)
 
+    def symbol_filter(self, full):
+        """The operand list after ppc_mn replaced the names that are not registers by "0": the loop that does it (in __init__ or in a helper method of
+        ppc_mn, whatever its variable names) is replayed from the source."""
+        loops = []
+        for mname, fn in self.mod.methods('ppc_mn').items():
+            for n in ast.walk(fn):
+                if isinstance(n, ast.For) and isinstance(n.iter, ast.Name) and isinstance(n.target, ast.Name) and any('is_symbol' in u(x) for x in ast.walk(n)):
+                    accs = set(c.func.value.id for c in ast.walk(n) if isinstance(c, ast.Call) and isinstance(c.func, ast.Attribute) and c.func.attr == 'append'
+                               and isinstance(c.func.value, ast.Name))
+                    if len(accs) == 1:
+                        loops.append((n, accs.pop()))
+        if len(loops) != 1:
+            raise AnalysisError('ppc_mn: the loop that replaces symbols by "0" (is_symbol) was not found (%d candidates)' % len(loops))
+        loop, acc = loops[0]
+        ev = Evaluator(dict(self.env))
+        ev.env.update({loop.iter.id: list(full), acc: [], 'print': Opaque('print')})
+        body = [st for st in loop.body if not (isinstance(st, ast.Expr) and isinstance(st.value, ast.Call) and u(st.value.func) == 'print')]
+
+        def strip_print(stmts):
+            out = []
+            for st in stmts:
+                if isinstance(st, ast.Expr) and isinstance(st.value, ast.Call) and u(st.value.func) == 'print':
+                    continue
+                if isinstance(st, ast.If):
+                    st2 = ast.If(test=st.test, body=strip_print(st.body) or [ast.Pass()], orelse=strip_print(st.orelse))
+                    ast.copy_location(st2, st)
+                    out.append(st2)
+                else:
+                    out.append(st)
+            return out
+        body = strip_print(loop.body)
+        try:
+            for a in full:
+                ev.env[loop.target.id] = a
+                try:
+                    ev.exec_stmts(body, ev.env)
+                except Exception as e:
+                    if type(e).__name__ != '_Continue':
+                        raise
+        except NotConst as e:
+            raise AnalysisError('ppc_mn symbol filter not evaluable: %s' % e)
+        return list(ev.env[acc])
+
     def accepting_classes(self, name):
         out = []
         for cname in self.P.tab_mn:
@@ -105,25 +148,6 @@ class BranchTrip(object):
         self.call(o, 'parse_opts', rest)
         self.call(o, 'str2name', nm)
         # symbols that are not whitelisted are replaced by "0" (evaluated from the source of __init__)
-        init = self.mod.methods('ppc_mn')['__init__']
-        loop = [n for n in ast.walk(init) if isinstance(n, ast.For) and u(n.iter) == 'full_mnemo' and any('is_symbol' in u(x) for x in ast.walk(n))]
-        if len(loop) != 1:
-            raise AnalysisError('ppc_mn.__init__: the symbol-filter loop over full_mnemo was not found')
-        full = list(reversed(args))
-        ev = Evaluator(dict(self.env))
-        ev.env.update({'full_mnemo': full, 'mnemo_nosymb': [], 'print': Opaque('print')})
-        try:
-            # drop the print(...) statement of the loop body
-            body = [st for st in loop[0].body if not (isinstance(st, ast.Expr) and isinstance(st.value, ast.Call) and u(st.value.func) == 'print')]
-            for a in full:
-                ev.env[loop[0].target.id] = a
-                try:
-                    ev.exec_stmts(body, ev.env)
-                except Exception as e:
-                    if type(e).__name__ != '_Continue':
-                        raise
-        except NotConst as e:
-            raise AnalysisError('ppc_mn.__init__ symbol filter not evaluable: %s' % e)
-        full = list(ev.env['mnemo_nosymb'])
+        full = self.symbol_filter(list(reversed(args)))
         self.call(o, 'parse_args', full)
         return o
